@@ -80,6 +80,35 @@ Theorem C30_print_file_roundtrip_partial : forall toks ix pend out,
 Proof. exact print_file_roundtrip_partial_lemma. Qed.
 Print Assumptions C30_print_file_roundtrip_partial.
 
+(* The working tree after the end-of-file repair (fix b0227a81 = fixes/C30-final-newline.diff) is
+   cfg_eof_only: PrintFile appends the text after the last token as it is.  Under guard alone the
+   whole file round-trips; without the guard the same witnesses as for cfg_asis refute it. *)
+Theorem C30_print_file_roundtrip_eof_only : forall toks,
+  wf_toks toks -> guard cfg_eof_only toks -> print_file_rt cfg_eof_only toks = Some (source_text toks).
+Proof. exact print_file_roundtrip_eof_only_lemma. Qed.
+Print Assumptions C30_print_file_roundtrip_eof_only.
+
+Theorem C30_emit_roundtrip_id_eof_only : forall toks ix,
+  wf_toks toks -> guard cfg_eof_only toks -> build cfg_eof_only toks = Some ix ->
+  emit_roundtrip ix toks = flatten toks.
+Proof. exact emit_roundtrip_id_eof_only_lemma. Qed.
+Print Assumptions C30_emit_roundtrip_id_eof_only.
+
+Theorem C30_trivia_partition_eof_only : forall toks ix,
+  wf_toks toks -> guard cfg_eof_only toks -> build cfg_eof_only toks = Some ix ->
+  tree_trivia ix toks = pieces (trivia_of toks).
+Proof. exact trivia_partition_eof_only_lemma. Qed.
+Print Assumptions C30_trivia_partition_eof_only.
+
+Theorem C30_eof_only_refuted :
+  (exists toks, wf_toks toks /\ print_file_rt cfg_eof_only toks <> Some (source_text toks))
+  /\ (exists toks ix, wf_toks toks /\ build cfg_eof_only toks = Some ix /\ emit_roundtrip ix toks <> flatten toks)
+  /\ (exists toks ix, wf_toks toks /\ build cfg_eof_only toks = Some ix /\ tree_trivia ix toks <> pieces (trivia_of toks))
+  /\ (exists toks ds tail, wf_toks toks /\ print_decls cfg_eof_only toks = Some (ds, tail)
+                           /\ concat ds ++ tail <> source_text toks).
+Proof. exact eof_only_refuted. Qed.
+Print Assumptions C30_eof_only_refuted.
+
 (* per_decl_concat: the per-declaration prints concatenate to the source minus the trailing trivia *)
 Theorem C30_per_decl_concat : forall toks,
   wf_toks toks ->
